@@ -23,6 +23,7 @@ var c15seps = []string{"", " ", "\t", "'", `"`, `\`, "=", ";", "--", "/*", "*/",
 type c15stmt struct {
 	toks    []gen.Tok
 	pwTok   int // index of the password literal token
+	pwEnd   int // index of the last token of the password (== pwTok unless it is split over adjacent literals)
 	markers []string
 	pw      string
 	user    string
@@ -71,6 +72,7 @@ func c15Gen(rg *mon.Rng) *c15stmt {
 		b.Kw("WITH PASSWORD")
 		b.Str(s.pw)
 		s.pwTok = len(b.Toks) - 1
+		c15Split(rg, b, s)
 		if rg.P(0.4) {
 			b.Kw("WITH ALL PRIVILEGES")
 		}
@@ -80,15 +82,32 @@ func c15Gen(rg *mon.Rng) *c15stmt {
 		b.Op("=")
 		b.Str(s.pw)
 		s.pwTok = len(b.Toks) - 1
+		c15Split(rg, b, s)
 	}
 	s.toks = b.Toks
 	return s
 }
 
+// c15Split sometimes continues the password in one or two adjacent string
+// literals (a spelling some SQL dialects join into one value). The grammar
+// does not have it; the text is judged like any other, only if accepted.
+func c15Split(rg *mon.Rng, b *gen.Builder, s *c15stmt) {
+	s.pwEnd = s.pwTok
+	if !rg.P(0.08) {
+		return
+	}
+	for k, n := 0, rg.Range(1, 2); k < n; k++ {
+		m := c15Markers(rg, 1)
+		s.markers = append(s.markers, m...)
+		b.Str(m[0])
+		s.pwEnd = len(b.Toks) - 1
+	}
+}
+
 // c15Render renders tokens with random gaps, optionally with comments in
 // gaps, and returns the text and the byte span of token `want`.
 func c15Render(rg *mon.Rng, toks []gen.Tok, want int, comments bool) (string, int, int) {
-	return c15RenderX(rg, toks, want, comments, -1)
+	return c15RenderX(rg, toks, want, want, comments, -1)
 }
 
 // c15Exotic are characters some lexers take for blanks and others do not. A
@@ -97,7 +116,7 @@ func c15Render(rg *mon.Rng, toks []gen.Tok, want int, comments bool) (string, in
 var c15Exotic = []string{"\v", "\f", "\u0085", "\u00a0", "\u1680", "\u2003", "\u2028", "\u2029", "\u202f", "\u3000", "\ufeff", "\x00"}
 
 // c15RenderX: the gap in front of token exoticAt (when >= 0) is one exotic blank.
-func c15RenderX(rg *mon.Rng, toks []gen.Tok, want int, comments bool, exoticAt int) (string, int, int) {
+func c15RenderX(rg *mon.Rng, toks []gen.Tok, want, wantEnd int, comments bool, exoticAt int) (string, int, int) {
 	var sb strings.Builder
 	st, en := -1, -1
 	for i, t := range toks {
@@ -122,7 +141,7 @@ func c15RenderX(rg *mon.Rng, toks []gen.Tok, want int, comments bool, exoticAt i
 			st = sb.Len()
 		}
 		sb.WriteString(t.Text)
-		if i == want {
+		if i == wantEnd {
 			en = sb.Len()
 		}
 	}
@@ -225,7 +244,7 @@ func c15Known(text string, spans []c15span) string { return "" }
 
 func checkC15(c *Ctx) (string, bool, []string) {
 	r := c.R
-	rule := "CREATE USER ... WITH PASSWORD / SET PASSWORD FOR ... = statements with passwords built from unique markers joined by hostile separators (spaces, both quotes, backslash, =, ;, comment openers, newline escape, non-ASCII, the words 'password'/'with password'), hostile user names, every keyword case and whitespace layout incl. none around '=', comments in gaps, one separator replaced by a blank-like character outside [ \\t\\n\\r] (VT, FF, NEL, NBSP, EM SPACE, LINE SEPARATOR, BOM, NUL, ...) in a fifth of them; alone and among 1-4 statements of other kinds. Marker search in String() and Sanitize(); exact preservation of the text outside the literal spans; Sanitize(t)==t for statements of all other kinds. Non-trivial = password has a separator or layout differs from canonical; distinct by text."
+	rule := "CREATE USER ... WITH PASSWORD / SET PASSWORD FOR ... = statements with passwords built from unique markers joined by hostile separators (spaces, both quotes, backslash, =, ;, comment openers, newline escape, non-ASCII, the words 'password'/'with password'), hostile user names, every keyword case and whitespace layout incl. none around '=', comments in gaps, the password continued in adjacent string literals (judged only if the parser accepts that), an earlier Sanitize call on a same-length text with the same beginning and end but no password clause, one separator replaced by a blank-like character outside [ \\t\\n\\r] (VT, FF, NEL, NBSP, EM SPACE, LINE SEPARATOR, BOM, NUL, ...) in a fifth of them; alone and among 1-4 statements of other kinds. Marker search in String() and Sanitize(); exact preservation of the text outside the literal spans; Sanitize(t)==t for statements of all other kinds. Non-trivial = password has a separator or layout differs from canonical; distinct by text."
 	assume := []string{"only parser-accepted texts are judged", "the replacement text for the literal is not prescribed, only that it carries no password material"}
 	if c.Replay != nil {
 		local := map[string]int64{}
@@ -261,7 +280,7 @@ func checkC15(c *Ctx) (string, bool, []string) {
 			if j > 0 {
 				sb.WriteString([]string{";", "; ", " ;\n", ";\n"}[rg.Intn(4)])
 			}
-			if j > 0 && rg.P(0.4) {
+			if nst > 1 && rg.P(0.4) && !(j == nst-1 && len(spans) == 0) {
 				gc := genCase(c.Seed, "c15.other", i*4+j, -1, -1, gen.Opts{MaxDepth: 1}, "random")
 				if gen.Kinds[gc.Kind].Name != "CreateUser" && gen.Kinds[gc.Kind].Name != "SetPassword" {
 					sb.WriteString(gc.Text)
@@ -274,7 +293,10 @@ func checkC15(c *Ctx) (string, bool, []string) {
 				exoticAt = 1 + rg.Intn(len(s.toks)-1)
 				local["exotic-blank-variants"]++
 			}
-			t, st, en := c15RenderX(rg, s.toks, s.pwTok, comments, exoticAt)
+			t, st, en := c15RenderX(rg, s.toks, s.pwTok, s.pwEnd, comments, exoticAt)
+			if s.pwEnd != s.pwTok {
+				local["split-literal-variants"]++
+			}
 			spans = append(spans, c15span{sb.Len() + st, sb.Len() + en})
 			sb.WriteString(t)
 			markers = append(markers, s.markers...)
@@ -283,6 +305,31 @@ func checkC15(c *Ctx) (string, bool, []string) {
 		var sj []interface{}
 		for _, sp := range spans {
 			sj = append(sj, []int{sp.st, sp.en})
+		}
+		if rg.P(0.4) {
+			// an earlier call on a text of the same length, with the same
+			// beginning and end, that holds no password clause: what Sanitize
+			// did before must not matter for what it does now
+			decoy := []byte(text)
+			for _, sp := range spans {
+				for k := sp.st; k < sp.en; k++ {
+					if decoy[k] < 0x80 && decoy[k] != '\n' {
+						decoy[k] = 'x'
+					}
+				}
+			}
+			low := strings.ToLower(string(decoy))
+			for k := strings.Index(low, "password"); k >= 0; {
+				decoy[k+4] = '-'
+				nx := strings.Index(low[k+8:], "password")
+				if nx < 0 {
+					break
+				}
+				k += 8 + nx
+			}
+			_ = influxql.Sanitize(string(decoy))
+			_ = influxql.Sanitize(text[:len(text)/2])
+			local["decoy-called-first"]++
 		}
 		c15Check(c, text, spans, markers, map[string]interface{}{"spans": sj}, local)
 		r.DistinctStr(text)
